@@ -11,8 +11,9 @@ pub struct C14;
 pub const ALPHA_A: &[char] = &['0', '1', 'b', 'e', '.', '_', '"', '/', '*', '\n', '#', '$', 'µ', '\0'];
 pub const ALPHA_B: &[char] = &['x', 'O', 'p', '\'', '-', '+', 'é', '😀', '\r', '@', ' '];
 
-/// byte order mark, the rarer members of the lexer's whitespace set, a unit, a statement
-pub const ALPHA_C: &[char] = &['\u{feff}', '\u{000B}', '\u{0085}', '\u{2028}', 'x', '2', 's', ';', '\t'];
+/// byte order mark, the rarer members of the lexer's whitespace set, a unit, a statement, two invisible
+/// format characters (zero width space, word joiner) that are not white space for the lexer
+pub const ALPHA_C: &[char] = &['\u{feff}', '\u{000B}', '\u{0085}', '\u{2028}', 'x', '2', 's', ';', '\t', '\u{200B}', '\u{2060}'];
 
 /// the characters at the boundaries of the UTF-8 encoding lengths (1|2, 2|3, 3|4 bytes, the last code
 /// point), two blanks outside the lexer's whitespace set, and three ASCII neighbours
